@@ -182,8 +182,8 @@ package daemon
 //@   ensures result != nil ==> c09fatal
 
 //@ # a pod is collected only if it is not in the node's pod list and the API server answered, without error, that it does not exist
-//@ guard call Manager.Release in gcPods: c09absent && !(podID in exist)
-//@ guard call deletePodResource in gcPods: c09absent && !(podID in exist)
+//@ guard call Manager.Release in gcPods: c09absent && (!(podID in exist) || !exist[podID])
+//@ guard call deletePodResource in gcPods: c09absent && (!(podID in exist) || !exist[podID])
 //@ # the record goes only after every address of the pod was released (a failed release keeps the record for the next pass)
 //@ guard call deletePodResource in gcPods: !c09relerr
 //@ # GC changes pool and store only while holding the service lock exclusively ...
